@@ -35,11 +35,11 @@ try:
             res["etcd_fail"] = (d + ": " + o[-300:]).replace("\n", " | ")
     res["etcd_tests"] = ok
     shutil.copy(os.path.join(out, "demo_test.go"), dst)
-    rc, o = sh("go test -count=1 -timeout 600s -run '^%s$' %s 2>&1 | tail -15" % (run, pkg), cwd=moddir)
+    rc, o = sh("go test %s -count=1 -timeout 600s -run '^%s$' %s 2>&1 | tail -15" % (os.environ.get('SEED_TAGS',''), run, pkg), cwd=moddir)
     res["demo_fails_with_patch"] = ("FAIL" in o or "panic" in o)
     res["demo_with"] = o[-300:].replace("\n", " | ")
     sh("git checkout -- .")
-    rc, o = sh("go test -count=1 -timeout 600s -run '^%s$' %s 2>&1 | tail -5" % (run, pkg), cwd=moddir)
+    rc, o = sh("go test %s -count=1 -timeout 600s -run '^%s$' %s 2>&1 | tail -5" % (os.environ.get('SEED_TAGS',''), run, pkg), cwd=moddir)
     res["demo_passes_without"] = (o.strip().startswith("ok") or "\nok" in o) and "FAIL" not in o
     res["demo_without"] = o[-200:].replace("\n", " | ")
 finally:
